@@ -163,6 +163,14 @@ def harnesses(tier, seed, active_kf=()):
             body = body.replace("why = eq_value_problem(a, v)", "if isinstance(v, int):\n    v = [v]\nwhy = eq_value_problem(a, v)")
         out.append(mk("C15.value.%s" % name, params + ", v: " + WILD, body, covers=("accept", "reject"), pre=pre + [SB.format("v")],
                       timeout=90, prelude=PRELUDE, functions=FUNCS, bounds=BOUNDS))
+    out.append(mk("C15.value.menu", "si: int, vi: int", """
+si, vi = conc(si, 6), conc(vi, 15)
+with notrace():
+    S = (schema.datetime, schema.datetime(DATETIMES[0]), schema.date, schema.date(DATES[0]), schema.uuid4, schema.uuid4(UUIDS4[0]), schema.bytes)[si]
+    v = (DT_VALUES + UUID_VALUES + (b"x",))[vi] if vi < 16 else None
+    why = eq_value_problem(S, v)
+return (why == ""), (why or ("accept" if S == v else "reject"))
+""", covers=("accept", "reject"), pre=["0 <= si <= 6", "0 <= vi <= 15"], timeout=90, functions=FUNCS, bounds=BOUNDS))
     out.append(mk("C15.optional", "i: int, j: int", OPT, covers=("equal", "unequal"), pre=["0 <= i <= 4 and 0 <= j <= 4"],
                   functions=FUNCS, bounds=BOUNDS))
     return out
